@@ -677,3 +677,76 @@ func ruleErrChanBuffered(r *Run) {
 	}
 	r.check(n >= 1, "repo:unbuffered-error-channels", fmt.Sprintf("%d error channels fed by workers of a waiting function", n), "none found: rule needs review", "-")
 }
+
+// ---------------------------------------------------------------------------------------------
+// R11.13 / R20.22 — one lock order between a repo and its nodes
+
+func init() {
+	register(ruleDef{ID: "R11.13", Prop: "C11", Tier: "quick", Floor: 3,
+		Title: "repo before node: no function acquires a repo's lock while it holds the lock of one of the repo's nodes (serialisation of the repo, commit and the node log take the repo's lock first and then each node's; the opposite order deadlocks against them)",
+		Fn:    ruleRepoNodeLockOrder})
+	register(ruleDef{ID: "R20.22", Prop: "C20", Tier: "quick", Floor: 3,
+		Title: "no lock-order inversion between a repo and its nodes (shared with R11.13): two requests that take the two locks in opposite orders wedge each other and every later request on the repo",
+		Fn:    ruleRepoNodeLockOrder})
+}
+
+func ruleRepoNodeLockOrder(r *Run) {
+	w := r.W
+	n, nested := 0, 0
+	baseType := func(in ssa.Instruction) string {
+		c, ok := in.(*ssa.Call)
+		if !ok || len(c.Call.Args) == 0 {
+			return ""
+		}
+		fa, ok := c.Call.Args[0].(*ssa.FieldAddr)
+		if !ok {
+			return ""
+		}
+		if nm := namedOf(fa.X.Type()); nm != nil {
+			return nm.Obj().Name()
+		}
+		return ""
+	}
+	for _, f := range w.RepoFuncs {
+		if relPkg(pkgPathOf(f)) != "datastore" || len(f.Blocks) == 0 || strings.HasSuffix(w.fposFile(f), "_test.go") {
+			continue
+		}
+		nodeKeys := map[string]bool{}
+		var repoAcq []ssa.Instruction
+		for _, b := range f.Blocks {
+			for _, in := range b.Instrs {
+				op, ok := asLockOp(in)
+				if !ok || !op.lock {
+					continue
+				}
+				switch baseType(in) {
+				case "nodeT":
+					nodeKeys[op.key] = true
+				case "repoT":
+					repoAcq = append(repoAcq, in)
+				}
+			}
+		}
+		if len(repoAcq) == 0 {
+			continue
+		}
+		n++
+		if len(nodeKeys) == 0 {
+			continue
+		}
+		k := 0
+		for _, acq := range repoAcq {
+			nested++
+			k++
+			bad := false
+			for key := range nodeKeys {
+				if held, _ := heldKeyAt(f, acq, key); held {
+					bad = true
+				}
+			}
+			r.check(!bad, fmt.Sprintf("%s:repo-lock#%d:not-under-a-node-lock", fname(f), k), "no node lock is held when the repo's lock is taken",
+				"the repo's lock is acquired while a node's lock is held; serialising the repo (GET repo info, every save), commit and the node log take them in the order repo → node, so the two requests can block each other for ever", w.pos(acq.Pos()))
+		}
+	}
+	r.check(n >= 10 && nested >= 3, "datastore:repo-lock-acquisitions", fmt.Sprintf("%d functions lock a repo, %d acquisitions in functions that also lock a node", n, nested), "too few: rule needs review", "-")
+}
